@@ -33,10 +33,54 @@ def anchored_ranges(pid):
     return out
 
 
+def base_commit():
+    try:
+        return open("/root/.vp/repo_root_sha").read().strip()
+    except OSError:
+        return None
+
+
+def remap(rel, lines):
+    """The anchors give line numbers of the pinned commit; fix: commits have moved lines since.  Map each anchored
+    line to its line in the tree under test through `git diff -U0 <pinned> -- file` (lines inside a changed hunk map
+    to the whole new hunk)."""
+    import subprocess
+    base = base_commit()
+    if not base:
+        return lines
+    try:
+        p = subprocess.run(["git", "-C", REPO, "diff", "-U0", base, "--", rel], capture_output=True, text=True, timeout=60)
+    except Exception:
+        return lines
+    if p.returncode != 0:
+        return lines
+    hunks = []
+    for m in re.finditer(r"^@@ -(\d+)(?:,(\d+))? \+(\d+)(?:,(\d+))? @@", p.stdout, flags=re.M):
+        a, la, b, lb = int(m.group(1)), int(m.group(2) or 1), int(m.group(3)), int(m.group(4) or 1)
+        hunks.append((a, la, b, lb))
+    out = set()
+    for ln in lines:
+        shift = 0
+        mapped = None
+        for a, la, b, lb in hunks:
+            if la == 0:                       # pure insertion after old line a
+                if ln > a:
+                    shift = (b + lb - 1) - a
+                continue
+            if ln < a:
+                break
+            if a <= ln < a + la:              # inside a replaced block: the whole new block
+                mapped = set(range(b, b + lb))
+                break
+            shift = (b + lb) - (a + la)
+        out |= mapped if mapped is not None else {ln + shift}
+    return out
+
+
 def main():
     pid, cases_path, out_path = sys.argv[1:4]
     import coverage
-    ranges = anchored_ranges(pid)
+    ranges = {rel: remap(rel, lines) for rel, lines in anchored_ranges(pid).items()}
     files = [os.path.join(REPO, f) for f in ranges]
     cov = coverage.Coverage(include=files, data_file=None)
     mod = importlib.import_module("vcheck.props." + pid.lower())
